@@ -529,6 +529,17 @@ def size_ladder(cap=None, floor=0):
     return out
 
 
+def _tree_digest(root):
+    h = hashlib.sha256()
+    for dp, dn, fn in sorted(os.walk(root)):
+        dn.sort()
+        for f in sorted(fn):
+            if f.endswith((".py", ".json", ".pem", ".txt", ".cfg")) or "." not in f:
+                h.update(os.path.relpath(os.path.join(dp, f), root).encode())
+                h.update(hashlib.sha256(open(os.path.join(dp, f), "rb").read()).digest())
+    return h.hexdigest()
+
+
 def env_invariance(chk, *groups):
     for g in groups:
         _env_invariance(chk, g)
@@ -562,7 +573,18 @@ def _env_invariance(chk, group):
                 environments[f"{nm}={v} (a variable the changed source reads)"] = {nm: v}
     except Exception:
         pass
+    # The probe's output is a function of (library source, harness source, group, environment): results are kept for an hour under a key made of
+    # exactly those (content hashes, not paths or mtimes), so that the 20 checks of one pass do not recompute the same child runs.
+    import time as _t
+    cache_dir = os.environ.get("VERIF_ENVCACHE") or os.path.join(BUILD, "envcache")
+    try:
+        os.makedirs(cache_dir, exist_ok=True)
+        tree = _tree_digest(os.path.join(repo, "webauthn")) + _tree_digest(os.path.join(ROOT, "harness"))
+    except Exception:
+        tree = None
     procs = {}
+    outs = {}
+    keys = {}
     for name, extra in environments.items():
         env = dict(os.environ)
         env.update({k: (bundle if v == "@forged_root_bundle" else bundle_dir if v == "@forged_root_dir" else v) for k, v in extra.items()})
@@ -570,11 +592,26 @@ def _env_invariance(chk, group):
         env["PYTHONPATH"] = repo
         env["PYTHONHASHSEED"] = "0"
         args = env.pop("@args", "").split()
+        if tree is not None:
+            keys[name] = os.path.join(cache_dir, hashlib.sha256(repr((tree, group, name, sorted(extra.items()), sys.version)).encode()).hexdigest()[:32] + ".json")
+            try:
+                if _t.time() - os.path.getmtime(keys[name]) < 3600:
+                    rc_, lines_, err_ = json.load(open(keys[name]))
+                    outs[name] = (rc_, lines_, err_)
+                    continue
+            except Exception:
+                pass
         procs[name] = subprocess.Popen([sys.executable] + args + ["-m", "harness.envprobe", group], cwd=ROOT, env=env, stdout=subprocess.PIPE, stderr=subprocess.PIPE)
-    outs = {}
     for name, p in procs.items():
         o, e = p.communicate(timeout=900)
         outs[name] = (p.returncode, o.decode("utf-8", "replace").splitlines(), e.decode("utf-8", "replace")[-800:])
+        if name in keys:
+            try:
+                tmp = keys[name] + f".{os.getpid()}"
+                json.dump(outs[name], open(tmp, "w"))
+                os.replace(tmp, keys[name])
+            except Exception:
+                pass
     rc0, base, err0 = outs["default"]
     if rc0 != 0 or not base:
         chk.diverge("harness.envprobe (default environment)", f"probe {group} did not complete: rc={rc0} {err0[-300:]}", {"group": group})
